@@ -24,6 +24,9 @@
 // ---------------------------------------------------------------- number <-> bit pattern
 static std::string hx(double v) { if (std::isnan(v)) return "nan"; std::uint64_t b; std::memcpy(&b, &v, 8); char s[24]; std::snprintf(s, sizeof s, "%016llx", (unsigned long long) b); return s; }
 static std::string hx(float v) { if (std::isnan(v)) return "nan"; std::uint32_t b; std::memcpy(&b, &v, 4); char s[16]; std::snprintf(s, sizeof s, "%08x", (unsigned) b); return s; }
+static std::string hx(long double v) { if (std::isnan(v)) return "nan"; char s[64]; std::snprintf(s, sizeof s, "%La", v); return s; }   // exact hex-float
+static void unhx(const std::string& s, long double& v) { std::uint64_t b = std::stoull(s, nullptr, 16); double d; std::memcpy(&d, &b, 8); v = d; }  // inputs are doubles
+template<class K> static K qnan() { return std::numeric_limits<K>::quiet_NaN(); }
 static void unhx(const std::string& s, double& v) { std::uint64_t b = std::stoull(s, nullptr, 16); std::memcpy(&v, &b, 8); }
 static void unhx(const std::string& s, float& v) { std::uint32_t b = (std::uint32_t) std::stoul(s, nullptr, 16); std::memcpy(&v, &b, 4); }
 
@@ -147,22 +150,35 @@ template<class K> static std::string ho_dispatch(const std::string& routine, int
 #endif
 
 // ---------------------------------------------------------------- value streams (real LAPACK build)
-// all four symmetric entry points on one matrix
+// all four symmetric entry points on one matrix.  Outputs are pre-filled with NaN (an entry the routine forgets to write shows);
+// each eigenvector routine is also called with the eigenvector matrix ALIASING the input matrix (in-place decomposition):
+// the result must be bit-identical to the non-aliased call (operands are read before the result is written).
+template<class K, int n, class F> static std::string alias_check(const Dune::FieldMatrix<K,n,n>& A, const std::string& ref, F&& call)
+{
+  Dune::FieldMatrix<K,n,n> B = A;
+  std::string got = guarded([&] { Dune::FieldVector<K,n> w(qnan<K>()); call(B, w, B); return vec_hx(w) + " " + mat_hx(B); });
+  return got == ref ? "ok" : "DIFF";
+}
 template<class K, int n> static std::string sym_fm(const std::vector<std::string>& t, std::size_t at)
 {
   Dune::FieldMatrix<K,n,n> A;
   for (int i = 0; i < n; ++i) for (int j = 0; j < n; ++j) unhx(t[at + i*n + j], A[i][j]);
   const Dune::FieldMatrix<K,n,n> A0 = A;
-  std::string out;
-  out += "vals " + guarded([&] { Dune::FieldVector<K,n> w(K(0)); Dune::FMatrixHelp::eigenValues(A, w); return vec_hx(w); });
-  out += " | vecs " + guarded([&] { Dune::FieldVector<K,n> w(K(0)); Dune::FieldMatrix<K,n,n> V(K(0)); Dune::FMatrixHelp::eigenValuesVectors(A, w, V); return vec_hx(w) + " " + mat_hx(V); });
+  std::string out, alias;
+  out += "vals " + guarded([&] { Dune::FieldVector<K,n> w(qnan<K>()); Dune::FMatrixHelp::eigenValues(A, w); return vec_hx(w); });
+  std::string r = guarded([&] { Dune::FieldVector<K,n> w(qnan<K>()); Dune::FieldMatrix<K,n,n> V(qnan<K>()); Dune::FMatrixHelp::eigenValuesVectors(A, w, V); return vec_hx(w) + " " + mat_hx(V); });
+  out += " | vecs " + r;
+  alias += "vecs=" + alias_check<K,n>(A, r, [](const Dune::FieldMatrix<K,n,n>& M, Dune::FieldVector<K,n>& w, Dune::FieldMatrix<K,n,n>& V) { Dune::FMatrixHelp::eigenValuesVectors(M, w, V); });
 #ifndef C08_MOCK
-  out += " | lvals " + guarded([&] { Dune::FieldVector<K,n> w(K(0)); Dune::FMatrixHelp::eigenValuesLapack(A, w); return vec_hx(w); });
-  out += " | lvecs " + guarded([&] { Dune::FieldVector<K,n> w(K(0)); Dune::FieldMatrix<K,n,n> V(K(0)); Dune::FMatrixHelp::eigenValuesVectorsLapack(A, w, V); return vec_hx(w) + " " + mat_hx(V); });
+  out += " | lvals " + guarded([&] { Dune::FieldVector<K,n> w(qnan<K>()); Dune::FMatrixHelp::eigenValuesLapack(A, w); return vec_hx(w); });
+  r = guarded([&] { Dune::FieldVector<K,n> w(qnan<K>()); Dune::FieldMatrix<K,n,n> V(qnan<K>()); Dune::FMatrixHelp::eigenValuesVectorsLapack(A, w, V); return vec_hx(w) + " " + mat_hx(V); });
+  out += " | lvecs " + r;
+  alias += ",lvecs=" + alias_check<K,n>(A, r, [](const Dune::FieldMatrix<K,n,n>& M, Dune::FieldVector<K,n>& w, Dune::FieldMatrix<K,n,n>& V) { Dune::FMatrixHelp::eigenValuesVectorsLapack(M, w, V); });
 #endif
   bool same = true;
   for (int i = 0; i < n; ++i) for (int j = 0; j < n; ++j) same = same && (hx(A[i][j]) == hx(A0[i][j]));
   out += same ? " | input-unchanged" : " | INPUT-MODIFIED";
+  out += " | alias " + alias;
   return out;
 }
 template<class K> static std::string sym_dispatch(int n, const std::vector<std::string>& t, std::size_t at)
@@ -174,35 +190,47 @@ template<class K> static std::string sym_dispatch(int n, const std::vector<std::
   return "BAD n";
 }
 #ifndef C08_MOCK
-static std::string nonsym_dyn(int n, bool want, const std::vector<std::string>& t, std::size_t at)
+// DynamicMatrixHelp::eigenValuesNonSym for K = double / float / long double.  The output objects are ALSO persistent ones that
+// are re-used from case to case (other sizes, stale contents): the result must equal the one obtained with fresh objects.
+template<class K> static std::string nonsym_dyn(int n, bool want, const std::vector<std::string>& t, std::size_t at)
 {
-  Dune::DynamicMatrix<double> A(n, n);
+  Dune::DynamicMatrix<K> A(n, n);
   for (int i = 0; i < n; ++i) for (int j = 0; j < n; ++j) unhx(t[at + i*n + j], A[i][j]);
-  return guarded([&]() -> std::string {
-    Dune::DynamicVector<std::complex<double>> ev; std::vector<Dune::DynamicVector<double>> vecs;
-    Dune::DynamicMatrixHelp::eigenValuesNonSym(A, ev, want ? &vecs : nullptr);
+  auto show = [&](Dune::DynamicVector<std::complex<double>>& ev, std::vector<Dune::DynamicVector<K>>& vecs) {
     std::string s = "ev";
     for (std::size_t i = 0; i < ev.size(); ++i) s += " " + hx(ev[i].real()) + " " + hx(ev[i].imag());
     if (want) { s += " | V"; for (auto& v : vecs) for (std::size_t j = 0; j < v.size(); ++j) s += " " + hx(v[j]); }
     return s;
+  };
+  std::string fresh = guarded([&]() -> std::string {
+    Dune::DynamicVector<std::complex<double>> ev; std::vector<Dune::DynamicVector<K>> vecs;
+    Dune::DynamicMatrixHelp::eigenValuesNonSym(A, ev, want ? &vecs : nullptr);
+    return show(ev, vecs);
   });
+  static Dune::DynamicVector<std::complex<double>> ev_p; static std::vector<Dune::DynamicVector<K>> vecs_p;
+  std::string reused = guarded([&]() -> std::string {
+    Dune::DynamicMatrixHelp::eigenValuesNonSym(A, ev_p, want ? &vecs_p : nullptr);
+    return show(ev_p, vecs_p);
+  });
+  return fresh + (reused == fresh ? " | reuse-ok" : " | REUSE-DIFF");
 }
-template<int n> static std::string nonsym_fm_n(const std::vector<std::string>& t, std::size_t at)
+template<class K, int n> static std::string nonsym_fm_n(const std::vector<std::string>& t, std::size_t at)
 {
-  Dune::FieldMatrix<double,n,n> A;
+  Dune::FieldMatrix<K,n,n> A;
   for (int i = 0; i < n; ++i) for (int j = 0; j < n; ++j) unhx(t[at + i*n + j], A[i][j]);
   return guarded([&]() -> std::string {
     Dune::FieldVector<ReIm,n> ev;
+    for (int i = 0; i < n; ++i) { ev[i].real = qnan<double>(); ev[i].imag = qnan<double>(); }
     Dune::FMatrixHelp::eigenValuesNonSym(A, ev);
     std::string s = "ev";
     for (int i = 0; i < n; ++i) s += " " + hx(ev[i].real) + " " + hx(ev[i].imag);
     return s;
   });
 }
-static std::string nonsym_fm(int n, const std::vector<std::string>& t, std::size_t at)
+template<class K> static std::string nonsym_fm(int n, const std::vector<std::string>& t, std::size_t at)
 {
-  switch (n) { case 1: return nonsym_fm_n<1>(t, at); case 2: return nonsym_fm_n<2>(t, at); case 3: return nonsym_fm_n<3>(t, at);
-               case 4: return nonsym_fm_n<4>(t, at); case 5: return nonsym_fm_n<5>(t, at); case 6: return nonsym_fm_n<6>(t, at); }
+  switch (n) { case 1: return nonsym_fm_n<K,1>(t, at); case 2: return nonsym_fm_n<K,2>(t, at); case 3: return nonsym_fm_n<K,3>(t, at);
+               case 4: return nonsym_fm_n<K,4>(t, at); case 5: return nonsym_fm_n<K,5>(t, at); case 6: return nonsym_fm_n<K,6>(t, at); }
   return "BAD n";
 }
 #endif
@@ -234,15 +262,15 @@ int main(int argc, char** argv)
         // ev2 <thrq> <thrid> <flags> m00 m01 m10 m11 (binary64 bit patterns); thresholds and flags are for the model only
         Dune::FieldMatrix<double,2,2> A;
         unhx(t[4], A[0][0]); unhx(t[5], A[0][1]); unhx(t[6], A[1][0]); unhx(t[7], A[1][1]);
-        out = "vals " + guarded([&] { Dune::FieldVector<double,2> w(0.0); Dune::FMatrixHelp::eigenValues(A, w); return vec_hx(w); });
-        out += " | vecs " + guarded([&] { Dune::FieldVector<double,2> w(0.0); Dune::FieldMatrix<double,2,2> V(0.0);
+        out = "vals " + guarded([&] { Dune::FieldVector<double,2> w(qnan<double>()); Dune::FMatrixHelp::eigenValues(A, w); return vec_hx(w); });
+        out += " | vecs " + guarded([&] { Dune::FieldVector<double,2> w(qnan<double>()); Dune::FieldMatrix<double,2,2> V(qnan<double>());
                                           Dune::FMatrixHelp::eigenValuesVectors(A, w, V); return vec_hx(w) + " " + mat_hx(V); });
       }
       else if (op == "ev2f" && t.size() == 8) {
         Dune::FieldMatrix<float,2,2> A;
         unhx(t[4], A[0][0]); unhx(t[5], A[0][1]); unhx(t[6], A[1][0]); unhx(t[7], A[1][1]);
-        out = "vals " + guarded([&] { Dune::FieldVector<float,2> w(0.0f); Dune::FMatrixHelp::eigenValues(A, w); return vec_hx(w); });
-        out += " | vecs " + guarded([&] { Dune::FieldVector<float,2> w(0.0f); Dune::FieldMatrix<float,2,2> V(0.0f);
+        out = "vals " + guarded([&] { Dune::FieldVector<float,2> w(qnan<float>()); Dune::FMatrixHelp::eigenValues(A, w); return vec_hx(w); });
+        out += " | vecs " + guarded([&] { Dune::FieldVector<float,2> w(qnan<float>()); Dune::FieldMatrix<float,2,2> V(qnan<float>());
                                           Dune::FMatrixHelp::eigenValuesVectors(A, w, V); return vec_hx(w) + " " + mat_hx(V); });
       }
       else if (op == "k3" && t.size() >= 2) {
@@ -254,27 +282,36 @@ int main(int argc, char** argv)
         auto rd = [&](std::size_t i) { double x; unhx(t[i], x); return x; };
         if (t[1] == "eig0" && t.size() == 12) {
           Dune::FieldMatrix<double,3,3> A; for (int i = 0; i < 3; ++i) for (int j = 0; j < 3; ++j) A[i][j] = rd(2 + 3*i + j);
-          out = guarded([&] { V3 e(0.0); Dune::FMatrixHelp::Impl::eig0(A, rd(11), e); return vec_hx(e); });
+          out = guarded([&] { V3 e(qnan<double>()); Dune::FMatrixHelp::Impl::eig0(A, rd(11), e); return vec_hx(e); });
         }
         else if (t[1] == "ortho" && t.size() == 5) {
           V3 e = {rd(2), rd(3), rd(4)};
-          out = guarded([&] { V3 u(0.0), v(0.0); Dune::FMatrixHelp::Impl::orthoComp(e, u, v); return vec_hx(u) + " " + vec_hx(v); });
+          out = guarded([&] { V3 u(qnan<double>()), v(qnan<double>()); Dune::FMatrixHelp::Impl::orthoComp(e, u, v); return vec_hx(u) + " " + vec_hx(v); });
         }
         else if (t[1] == "eig1" && t.size() == 15) {
           Dune::FieldMatrix<double,3,3> A; for (int i = 0; i < 3; ++i) for (int j = 0; j < 3; ++j) A[i][j] = rd(2 + 3*i + j);
           V3 e = {rd(11), rd(12), rd(13)};
-          out = guarded([&] { V3 w(0.0); Dune::FMatrixHelp::Impl::eig1(A, e, w, rd(14)); return vec_hx(w); });
+          out = guarded([&] { V3 w(qnan<double>()); Dune::FMatrixHelp::Impl::eig1(A, e, w, rd(14)); return vec_hx(w); });
         }
       }
       else if (op == "sym" && t.size() >= 3) {
         int n = std::stoi(t[2]);
-        if ((int) t.size() == 3 + n*n) out = (t[1] == "f") ? sym_dispatch<float>(n, t, 3) : sym_dispatch<double>(n, t, 3);
+        if ((int) t.size() == 3 + n*n) out = (t[1] == "f") ? sym_dispatch<float>(n, t, 3) : (t[1] == "l") ? sym_dispatch<long double>(n, t, 3) : sym_dispatch<double>(n, t, 3);
       }
 #ifndef C08_MOCK
       else if (op == "nonsym" && t.size() >= 3) {
         // nonsym <dyn0|dyn1|fm> n entries...
         int n = std::stoi(t[2]);
-        if ((int) t.size() == 3 + n*n) out = (t[1] == "fm") ? nonsym_fm(n, t, 3) : nonsym_dyn(n, t[1] == "dyn1", t, 3);
+        // routine: dyn0|dyn1 (double), dynf0|dynf1 (float), dynl0|dynl1 (long double), fm (FieldMatrix<double>), fmf (FieldMatrix<float>: sgeev)
+        if ((int) t.size() == 3 + n*n) {
+          const std::string& r = t[1];
+          bool want = !r.empty() && r.back() == '1';
+          if (r == "fm") out = nonsym_fm<double>(n, t, 3);
+          else if (r == "fmf") out = nonsym_fm<float>(n, t, 3);
+          else if (r.rfind("dynf", 0) == 0) out = nonsym_dyn<float>(n, want, t, 3);
+          else if (r.rfind("dynl", 0) == 0) out = nonsym_dyn<long double>(n, want, t, 3);
+          else out = nonsym_dyn<double>(n, want, t, 3);
+        }
       }
 #else
       else if (op == "ho" && t.size() >= 5) {
